@@ -1,7 +1,84 @@
 import Driver.Common
-/- C02 driver (container-size model) — ops are added together with Cppcheck/Model/ContainerSize.lean -/
+import Cppcheck.Model.ContainerSize
+open Cppcheck.Wire Cppcheck.ContainerSize
+
+/-
+op lines:
+  spell action <s>                    -> index of Library::Container::actionFrom(s) in the Action enumeration | -
+  spell yield <s>                     -> index of yieldFrom(s) | -
+  abs <actionIdx> <yieldIdx>          -> name of the assumed effect
+  sound <container id> <method> <actionIdx> <yieldIdx>    -> 1 | 0   (entrySound of the row)
+  ref <container id> <method>         -> name of the reference effect | ? (unknown id or member)
+  run <init> <call>*                  -> Known size after the calls | -     init = known size | -
+        call = <actionIdx>:<yieldIdx>:<arg>      (arg = resize argument / appended length, 0 when irrelevant)
+-/
 namespace Driver.C02
-def step (_ : String) : String := "bad-op"
+
+def actions : List Action :=
+  [.resize, .clear, .push, .pop, .find, .findConst, .insert, .erase, .append, .changeContent, .change, .changeInternal, .noAction]
+
+def yields : List Yield :=
+  [.atIndex, .item, .buffer, .bufferNt, .startIterator, .endIterator, .iterator, .size, .empty, .noYield]
+
+def idxOf {α : Type} [DecidableEq α] (l : List α) (a : α) : Nat := (l.findIdx? (· == a)).getD l.length
+
+def effName : Eff → String
+  | .keep => "keep" | .add k => "add" ++ toString k | .addUnique => "addUnique" | .pop => "pop" | .clear => "clear"
+  | .setArg => "setArg" | .addArg => "addArg" | .grow => "grow" | .shrink => "shrink" | .any => "any" | .noMethod => "noMethod"
+
+def parseInt (s : String) : Option Int :=
+  if s.startsWith "-" then (s.drop 1).toNat?.map (fun n => - (Int.ofNat n)) else s.toNat?.map Int.ofNat
+
+def parseCall (w : String) : Option Call :=
+  match w.splitOn ":" with
+  | [a, y, g] =>
+    match a.toNat?, y.toNat?, g.toNat? with
+    | some a, some y, some g =>
+      match actions[a]?, yields[y]? with
+      | some a, some y => some { abs := absEffect a y, ref := .any, arg := g }
+      | _, _ => none
+    | _, _, _ => none
+  | _ => none
+
+def parseCalls : List String → Option (List Call)
+  | [] => some []
+  | w :: r =>
+    match parseCall w, parseCalls r with
+    | some c, some cs => some (c :: cs)
+    | _, _ => none
+
+def step (line : String) : String :=
+  match fields line with
+  | ["spell", "action", s] => match Action.ofString s with | some a => toString (idxOf actions a) | none => "-"
+  | ["spell", "yield", s] => match Yield.ofString s with | some y => toString (idxOf yields y) | none => "-"
+  | ["abs", a, y] =>
+    match a.toNat?, y.toNat? with
+    | some a, some y =>
+      match actions[a]?, yields[y]? with
+      | some a, some y => effName (absEffect a y)
+      | _, _ => "bad-op"
+    | _, _ => "bad-op"
+  | ["sound", c, m, a, y] =>
+    match a.toNat?, y.toNat? with
+    | some a, some y =>
+      match actions[a]?, yields[y]? with
+      | some a, some y => boolStr (entrySound { container := c, method := m, action := a, yield := y })
+      | _, _ => "bad-op"
+    | _, _ => "bad-op"
+  | ["ref", c, m] =>
+    match kindOf c with
+    | some k => match refEffect k m with | some e => effName e | none => "?"
+    | none => "?"
+  | "run" :: init :: calls =>
+    match parseCalls calls with
+    | some cs =>
+      let s0 : Option Int := if init == "-" then none else parseInt init
+      match absRun cs s0 with
+      | some k => toString k
+      | none => "-"
+    | none => "bad-op"
+  | _ => "bad-op"
+
 end Driver.C02
 
 def main : IO Unit := Driver.mainLoop Driver.C02.step
